@@ -12,7 +12,7 @@ from . import ops as O
 
 B64ENC = z3.Function('b64enc', z3.SeqSort(IntS), StrS)
 B64DEC = z3.Function('b64dec', StrS, z3.SeqSort(IntS))
-B64CANON = z3.Function('b64canon', StrS, BoolS)      # s is the canonical base64 text of some bytes
+B64CANON = z3.Function('b64valid', StrS, BoolS)      # s is accepted by strict (validate=True) decoding
 B64LENIENT_OK = z3.Function('b64lenient_ok', StrS, BoolS)
 B64LENIENT = z3.Function('b64lenient', StrS, z3.SeqSort(IntS))
 
@@ -71,6 +71,8 @@ class Calls:
                 return self.call_spec(it, f.data, args, kwargs)
             if kind == 'dispatch':
                 return w.call_dispatch(it, f.data, args, kwargs)
+            if kind == 'uf':
+                return w.call_uf(it, f.data, args)
             if kind == 'inv':
                 obj = args[0]
                 return SV(V.BoolV(w.class_invariant(it, obj, obj.ty)))
@@ -212,6 +214,9 @@ class Calls:
         # concrete: contract for exactly this class first, then for the defining class
         defcls = w.defining_class(cls, mname)
         if defcls is None:
+            c = w.contracts.get(f'{cls}.{mname}')
+            if c is not None:
+                return w.apply_contract(it, c, {'self': obj}, args, kwargs, node)
             raise Unsupported(f'{cls}.{mname} not found')
         for key in (f'{cls}.{mname}', f'{defcls}.{mname}'):
             c = w.contracts.get(key)
@@ -381,7 +386,8 @@ class Builtins:
              'is_tuple', 'is_list', 'is_dict', 'is_set', 'is_none', 'is_enum', 'is_number', 'is_intlike',
              'implies', 'num_eq', 'same_num', 'is_ascii', 'py_eq', 'is_obj', 'forall_items', 'is_seq', 'keys_of',
              'is_canonical_b64', 'b64_text', 'is_instance_of', 'class_of', 'is_whole', 'realnum', 'is_ok_float',
-             'fresh_from', 'is_fresh', 'same_object'}
+             'fresh_from', 'is_fresh', 'same_object', 'is_valid_b64', 'b64_bytes', 'mk_enum',
+             'seq_eq', 'is_wire', 'in_universe', 'on_grid', 'same_value', 'enum_owned', 'as_float', 'enum_has_name', 'enum_code', 'enum_has_code', 'enum_name'}
 
     def call(self, it, name, args, kwargs, node):
         m = getattr(self, 'bi_' + name, None)
@@ -424,6 +430,22 @@ class Builtins:
         x = a[0].t
         return SV(V.BoolV(z3.And(vals.is_finite(x), z3.ToReal(z3.ToInt(num(x))) == num(x))))
 
+    def bi_enum_owned(self, it, a, k, n):
+        """the member object belongs to this Enum object"""
+        return SV(V.BoolV(z3.And(V.is_EnumV(a[1].t), V.eid(a[1].t) == V.oid(a[0].t))))
+
+    def bi_same_value(self, it, a, k, n):
+        """identical python value: same kind, structurally equal (sequences by extensionality)"""
+        x, y = a[0].t, a[1].t
+        cx, cy = O.ctor(it.refine(x)), O.ctor(it.refine(y))
+        if cx == cy and cx in ('TupleV', 'ListV'):
+            self._seq_ext(it, it.refine(x).arg(0), it.refine(y).arg(0))
+        return SV(V.BoolV(x == y))
+
+    def bi_on_grid(self, it, a, k, n):
+        q = self.world.ops.binop(it, ast.Div(), a[0], a[1])
+        return self.bi_is_whole(it, [q], k, n)
+
     def bi_realnum(self, it, a, k, n):
         """the real number denoted by a finite number, as a float value (spec only)"""
         return SV(V.FloatV(num(a[0].t)))
@@ -435,8 +457,87 @@ class Builtins:
         x, y = a[0].t, a[1].t
         return SV(V.BoolV(z3.And(vals.is_finite(x), vals.is_finite(y), num(x) == num(y))))
 
-    def bi_is_canonical_b64(self, it, a, k, n):
+    def bi_is_valid_b64(self, it, a, k, n):
         return SV(V.BoolV(z3.And(V.is_StrV(a[0].t), B64CANON(V.s(a[0].t)))))
+
+    def bi_b64_bytes(self, it, a, k, n):
+        return SV(V.BytesV(B64DEC(V.s(a[0].t))))
+
+    def bi_mk_enum(self, it, a, k, n):
+        return SV(V.EnumV(V.oid(a[0].t), V.s(a[1].t), O.ival(a[2].t)))
+
+    # Enum view (assumed, validated by the bounded tier): names and codes of an Enum are in bijection
+    # (Enum.__init__ stores each member under both keys); the instance of the bijection for the
+    # queried name / code is assumed at each use instead of a quantified invariant
+    def _enum_ufs(self):
+        w = self.world
+        return (w.uf('uf!enum_has_name', [IntS, StrS, BoolS]), w.uf('uf!enum_code', [IntS, StrS, IntS]),
+                w.uf('uf!enum_has_code', [IntS, IntS, BoolS]), w.uf('uf!enum_name', [IntS, IntS, StrS]))
+
+    def _enum_name_inst(self, it, e, sx):
+        hn, cd, hc, nm = self._enum_ufs()
+        it.assume_axiom(z3.Implies(hn(e, sx), z3.And(hc(e, cd(e, sx)), nm(e, cd(e, sx)) == sx)))
+
+    def _enum_code_inst(self, it, e, ix):
+        hn, cd, hc, nm = self._enum_ufs()
+        it.assume_axiom(z3.Implies(hc(e, ix), z3.And(hn(e, nm(e, ix)), cd(e, nm(e, ix)) == ix)))
+
+    def bi_enum_has_name(self, it, a, k, n):
+        e, sx = V.oid(a[0].t), V.s(a[1].t)
+        self._enum_name_inst(it, e, sx)
+        return SV(V.BoolV(z3.And(V.is_StrV(a[1].t), self._enum_ufs()[0](e, sx))))
+
+    def bi_enum_code(self, it, a, k, n):
+        e, sx = V.oid(a[0].t), V.s(a[1].t)
+        self._enum_name_inst(it, e, sx)
+        return SV(V.IntV(self._enum_ufs()[1](e, sx)))
+
+    def bi_enum_has_code(self, it, a, k, n):
+        e, ix = V.oid(a[0].t), O.ival(a[1].t)
+        self._enum_code_inst(it, e, ix)
+        return SV(V.BoolV(self._enum_ufs()[2](e, ix)))
+
+    def bi_enum_name(self, it, a, k, n):
+        e, ix = V.oid(a[0].t), O.ival(a[1].t)
+        self._enum_code_inst(it, e, ix)
+        return SV(V.StrV(self._enum_ufs()[3](e, ix)))
+
+    def _seq_ext(self, it, sx, sy):
+        """extensionality instance for two sequences through a skolem difference index (sound axiom:
+        if the lengths agree and the elements at diff(sx, sy) agree, the sequences are equal)"""
+        DIFF = self.world.uf('seqdiff!', [vals.SeqVal, vals.SeqVal, IntS])
+        d = DIFF(sx, sy)
+        it.assume_axiom(z3.Implies(z3.And(z3.Length(sx) == z3.Length(sy),
+                                          z3.Implies(z3.And(0 <= d, d < z3.Length(sx)), sx[d] == sy[d])), sx == sy))
+
+    def bi_seq_eq(self, it, a, k, n):
+        x, y = it.split_kind(a[0]).t, it.split_kind(a[1]).t
+        cx, cy = O.ctor(x), O.ctor(y)
+        if cx == cy and cx in ('TupleV', 'ListV'):
+            self._seq_ext(it, x.arg(0), y.arg(0))
+            return SV(V.BoolV(x.arg(0) == y.arg(0)))
+        return SV(V.BoolV(z3.BoolVal(False) if cx != cy else x == y))
+
+    def bi_in_universe(self, it, a, k, n):
+        """the stated value universe (top level): no sets, no arbitrary objects / classes"""
+        t = a[0].t
+        return SV(V.BoolV(z3.Not(z3.Or(V.is_SetV(t), V.is_ObjV(t), V.is_ClsV(t)))))
+
+    def bi_is_wire(self, it, a, k, n):
+        """a value json.loads can produce, at every depth (unfolded one level per use)"""
+        t = a[0].t
+        W = self.world.uf('is_wire!', [Val, BoolS])
+        i = z3.Int('i!wire')
+        kx = z3.String('k!wire')
+        top = z3.Or(V.is_NoneV(t), V.is_BoolV(t), V.is_IntV(t), vals.is_floatlike(t), V.is_StrV(t),
+                    V.is_ListV(t), V.is_DictV(t))
+        it.assume_axiom(W(t) == z3.And(
+            top,
+            z3.Implies(V.is_ListV(t), z3.ForAll([i], z3.Implies(z3.And(0 <= i, i < z3.Length(V.litems(t))),
+                                                              W(V.litems(t)[i])))),
+            z3.Implies(V.is_DictV(t), z3.ForAll([kx], z3.Implies(z3.Select(V.dhas(t), kx),
+                                                               W(z3.Select(V.dmap(t), kx)))))))
+        return SV(V.BoolV(W(t)))
 
     def bi_b64_text(self, it, a, k, n):
         return SV(V.StrV(B64ENC(V.by(a[0].t))))
@@ -514,7 +615,14 @@ class Builtins:
             it.raise_('ValueError')
         if kk == 4:
             it.raise_('TypeError')
-        return SV(simp(z3.If(z3.Or(O.isinf(t), V.is_NaN(t)), t, V.FloatV(num(t)))))
+        return SV(simp(z3.If(z3.Or(O.isinf(t), V.is_NaN(t)), t, V.FloatV(O.fnum(it, t)))))
+
+    def bi_as_float(self, it, a, k, n):
+        """spec: the float nearest to a finite number (int -> float rounds beyond 2**53)"""
+        t = it.split_kind(a[0]).t
+        if O.ctor(t) in ('IntV', 'EnumV', 'BoolV'):
+            return SV(V.FloatV(O.fnum(it, t)))
+        return SV(t)
 
     def bi_bool(self, it, a, k, n):
         if not a:
@@ -558,6 +666,15 @@ class Builtins:
             it.raise_('ValueError')
         if kk == 3:
             it.raise_('TypeError')
+        if O.ctor(t) == 'FloatV':
+            # name the rounded integer: keeps later terms small
+            nn = it.fresh('rnd', IntS)
+            x = t.arg(0)
+            half = z3.RealVal('1/2')
+            d = x - z3.ToReal(nn)
+            it.assume(z3.And(d <= half, d >= -half, z3.Implies(z3.Or(d == half, d == -half), nn % 2 == 0),
+                             z3.Implies(z3.ToReal(z3.ToInt(x)) == x, nn == z3.ToInt(x))))
+            return SV(V.IntV(nn))
         return SV(simp(V.IntV(z3.If(V.is_FloatV(t), O.round_half_even(V.r(t)), O.ival(t)))))
 
     def _minmax(self, it, a, k, n, ismax):
@@ -692,7 +809,7 @@ class Builtins:
         return SV(V.BoolV(simp(z3.Or(*[self.isinst(it, x, nm) for nm in names]))))
 
     def _typenames(self, it, tspec):
-        if isinstance(tspec, PV) and tspec.kind == 'class':
+        if isinstance(tspec, PV) and (tspec.kind == 'class' or (tspec.kind == 'builtin' and tspec.data in BUILTIN_TYPES)):
             return [tspec.data]
         if isinstance(tspec, SV):
             tt = simp(tspec.t)
@@ -787,6 +904,8 @@ class Builtins:
         r = it.fresh('b64', Val)
         # b64encode returns bytes; .decode('ascii') of it is modelled by keeping the text in a bytes-tagged carrier
         it.assume(r == V.StrV(B64ENC(V.by(t))))
+        # axiom X1: the encoding is valid text and decodes to the bytes it encodes
+        it.assume_axiom(z3.And(B64CANON(B64ENC(V.by(t))), B64DEC(B64ENC(V.by(t))) == V.by(t)))
         return SV(r, 'b64bytes')
 
     def bi_b64decode(self, it, a, k, n):
@@ -802,8 +921,6 @@ class Builtins:
                 if it.feasible(V.is_BytesV(t)):
                     raise Unsupported('b64decode of bytes')
                 it.raise_('TypeError')
-            # axiom X1: canonical text decodes to the bytes it encodes
-            it.assume(B64ENC(B64DEC(V.s(t))) == V.s(t))
             return SV(V.BytesV(B64DEC(V.s(t))))
         ok = z3.And(isstr, B64LENIENT_OK(V.s(t)))
         kk = it.choose([ok, z3.And(isstr, z3.Not(ok)), z3.Not(isstr)], 'b64decode lenient')
@@ -814,8 +931,7 @@ class Builtins:
                 raise Unsupported('b64decode of bytes')
             it.raise_('TypeError')
         # lenient decoding: canonical text decodes exactly; other accepted text decodes to *some* bytes
-        it.assume(z3.Implies(B64CANON(V.s(t)), z3.And(B64LENIENT(V.s(t)) == B64DEC(V.s(t)),
-                                                     B64ENC(B64DEC(V.s(t))) == V.s(t))))
+        it.assume(z3.Implies(B64CANON(V.s(t)), B64LENIENT(V.s(t)) == B64DEC(V.s(t))))
         return SV(V.BytesV(B64LENIENT(V.s(t))))
 
     # --------------------------------------------------- methods of data values
